@@ -119,13 +119,13 @@ class NB:
             self.op("CONV_2D", [x, wt, bt], [o], "Conv2DOptions", fields, version=3)
         return o
 
-    def tconv(self, x):
+    def tconv(self, x, force_stride=None):
         d, st = self.draw, self.st
         X = self.info(x)
         n, h, w, c = X["shape"]
         dt = X["dtype"]
         k = d(st.sampled_from([2, 3, 4]))
-        s = d(st.sampled_from([1, 2, 2]))
+        s = d(st.sampled_from([1, 2, 2])) if force_stride is None else force_stride
         pad = d(st.sampled_from(["SAME", "VALID"]))
         oc = d(st.integers(1, 16))
         oh, ow = (h * s, w * s) if pad == "SAME" else ((h - 1) * s + k, (w - 1) * s + k)
@@ -374,7 +374,8 @@ class NB:
                 custom_options=self.draw(self.st.binary(min_size=0, max_size=12)).hex())
         return o
 
-    def dequant_quant(self, x, inner=None):
+    def dequant_quant(self, x, inner=None, rich=0):
+        d, st = self.draw, self.st
         X = self.info(x)
         f = self.t("deq", X["shape"], "float32")
         self.op("DEQUANTIZE", [x], [f], "DequantizeOptions", {}, version=2)
@@ -383,9 +384,34 @@ class NB:
             g = self.t(code.lower(), X["shape"], "float32")
             self.op(code, [cur], [g])
             cur = g
+        for _ in range(rich):  # CPU-resident float operators with populated option tables
+            code, table, gen = d(st.sampled_from(FLOAT_OPS))
+            g = self.t(code.lower(), X["shape"], "float32")
+            self.op(code, [cur], [g], table, gen(d, st) if gen else None, version=d(st.sampled_from([1, 1, 2])))
+            cur = g
+            if d(st.integers(0, 4)) == 0:  # float binary op with a float constant operand
+                c = self.t("fconst", [X["shape"][-1]], "float32", data=dict(seed=d(st.integers(0, 1 << 20)), lo=-2.0, hi=2.0))
+                g = self.t("fadd", X["shape"], "float32")
+                self.op(d(st.sampled_from(["ADD", "MUL", "SUB"])), [cur, c], [g], d(st.sampled_from(["AddOptions"])) if False else None, None)
+                self.ops[-1]["opts"] = dict(table={"ADD": "AddOptions", "MUL": "MulOptions", "SUB": "SubOptions"}[self.ops[-1]["code"]], fields=dict(FusedActivationFunction=d(st.sampled_from([0, 1, 3]))))
+                cur = g
         o = self.out("requant", X["shape"], X["dtype"], self.quant(X["dtype"]))
         self.op("QUANTIZE", [cur], [o], "QuantizeOptions", {}, version=1)
         return o
+
+
+FLOAT_OPS = [
+    # (code, options table, fields generator) - shape preserving float operators Vela leaves on the CPU
+    ("L2_NORMALIZATION", "L2NormOptions", lambda d, st: dict(FusedActivationFunction=d(st.sampled_from([0, 1, 3])))),
+    ("LOCAL_RESPONSE_NORMALIZATION", "LocalResponseNormalizationOptions", lambda d, st: dict(Radius=d(st.integers(1, 5)), Bias=d(st.sampled_from([0.5, 1.0, 2.0])), Alpha=d(st.sampled_from([0.25, 1e-4])), Beta=d(st.sampled_from([0.75, 0.5])))),
+    ("SOFTMAX", "SoftmaxOptions", lambda d, st: dict(Beta=d(st.sampled_from([0.5, 2.0, 1.5])))),
+    ("LOG_SOFTMAX", "LogSoftmaxOptions", lambda d, st: {}),
+    ("LEAKY_RELU", "LeakyReluOptions", lambda d, st: dict(Alpha=d(st.sampled_from([0.125, 0.3, 0.01])))),
+    ("ELU", None, None), ("FLOOR", None, None), ("CEIL", None, None), ("ROUND", None, None), ("SIN", None, None), ("COS", "CosOptions", lambda d, st: {}),
+    ("NEG", "NegOptions", lambda d, st: {}), ("SQUARE", "SquareOptions", lambda d, st: {}), ("HARD_SWISH", "HardSwishOptions", lambda d, st: {}),
+    ("GELU", "GeluOptions", lambda d, st: dict(Approximate=d(st.booleans()))),
+    ("RELU", None, None), ("RELU6", None, None), ("TANH", None, None), ("LOGISTIC", None, None), ("EXP", "ExpOptions", lambda d, st: {}),
+]
 
 
 def network(profile="exact", max_ops=6, dtypes=("int8", "int8", "int8", "uint8", "int16"), big=False):
@@ -408,6 +434,9 @@ def network(profile="exact", max_ops=6, dtypes=("int8", "int8", "int8", "uint8",
         history = [x]
         n_ops = draw(st.integers(1, max_ops))
         menu = list(EXACT_OPS)
+        if profile == "cpumix":  # NPU-supported operators interleaved with CPU-resident ones carrying populated option tables
+            menu = ["conv", "dw", "add", "maxpool", "relu", "reshape", "concat", "rich_cpu", "rich_cpu", "rich_cpu", "custom", "unsupported_conv", "unsupported_tconv", "gather", "tile", "fc", "mul_const"]
+            n_ops = draw(st.integers(2, max_ops))
         if profile == "cascade":  # chains of spatial operators on tall planes: what the scheduler cascades and stripes
             menu = ["conv", "conv", "conv", "dw", "dw", "maxpool", "add_const", "relu", "add", "avgpool_valid"]
             n_ops = draw(st.integers(2, max_ops))
@@ -481,6 +510,13 @@ def network(profile="exact", max_ops=6, dtypes=("int8", "int8", "int8", "uint8",
                 cur = nb.custom(cur)
             elif kind == "dequant_quant":
                 cur = nb.dequant_quant(cur)
+            elif kind == "rich_cpu":
+                cur = nb.dequant_quant(cur, None, rich=draw(st.integers(1, 3)))
+            elif kind == "unsupported_conv":
+                # a CONV_2D the NPU cannot take (stride 4 / batch 2 handled elsewhere): stays on the CPU with all its options
+                cur = nb.conv(cur, "conv", force_stride=(4, 4)) if r4 and X["shape"][1] >= 1 else nb.unary(cur, "RELU", same_q=True)
+            elif kind == "unsupported_tconv":
+                cur = nb.tconv(cur, force_stride=draw(st.sampled_from([3, 4]))) if r4 and X["shape"][1] * X["shape"][2] <= 64 and X["dtype"] != "int16" else nb.unary(cur, "RELU", same_q=True)
             elif kind == "float_chain":
                 cur = nb.dequant_quant(cur, draw(st.sampled_from([["FLOOR"], ["SIN", "COS"], ["EXP"], ["LOGISTIC"]])))
             elif kind == "gather":
